@@ -144,6 +144,11 @@ MUTANTS = [
      "    for residue_i, residue_j, topology in sorted(pairs):", "    for residue_i, residue_j, topology in set(pairs):"),
     ("m_c14_bpset", "C14", A,
      "    for residue_i, residue_j, lw in sorted(base_base_pairs):", "    for residue_i, residue_j, lw in set(base_base_pairs):"),
+    # session 5: the integrality of the model is a property of the *emitted* problem and of the solver's options
+    ("m_c02_lp_relaxation", "C02", C, 'pulp.LpVariable(f"x_{i}_{j}", 0, 1, pulp.LpInteger)',
+     'pulp.LpVariable(f"x_{i}_{j}", 0, 1, pulp.LpContinuous)'),
+    ("m_c13_mip_false", "C13", C, "            solver.msg = False\n        return self.convert",
+     "            solver.msg = False\n            solver.mip = False\n        return self.convert"),
 ]
 
 
